@@ -27,6 +27,7 @@ def run(ctx):
     ctx.ob("T7", "_Unquoter.__init__", "inner re-quoters and stored options", ip == ic and mp == mc,
            f"unquoter constructors differ: py {ip} {mp} vs pyx {ic} {mc}", sample="same inner quoters, same options")
     pyi_check(ctx)
+    drop_stage(ctx)
 
 
 def pyi_check(ctx):
@@ -48,3 +49,33 @@ def pyi_check(ctx):
         ctx.instance("T7")
         ctx.ob("T7", f"{cls}.__init__", "keyword-only parameters in .py / .pyx / .pyi", py == cy == stub,
                f"constructor keywords differ: py {py}, pyx {cy}, pyi {stub}", sample=str(py))
+
+
+def drop_stage(ctx):
+    """DROP: both quoters must drop unencodable units (lone surrogates) at the same stage. The pure-Python one drops them
+    before scanning (`encode(errors="ignore")`), so an escape window never sees them; a scanner that drops them only while
+    writing sees '%' + surrogate + hex digits as a malformed escape."""
+    from ..interp import analyze
+    from ..report import where
+    from ..terms import show, walk
+    m = ctx.model
+    rule = "DROP"
+    ctx.rule(rule, floor=1, what="unencodable units are dropped at the same stage in both quoters")
+    py = m.func("_quoting_py._Quoter.__call__")
+    r = analyze(m, py)
+    pre = False
+    for e in r.by_kind("call"):
+        if e.func[0] == "attr" and e.func[2] == "encode" and e.func[1] == ("param", "val") and ("errors", ("const", "ignore")) in e.kwargs:
+            pre = True
+    cy = m.func("_quoting_c._write_utf8")
+    rc = analyze(m, cy)
+    in_scan = any(v == ("const", 0) and not any("_write_pct" in show(k) for k in s.facts) for s, v, _n in rc.returns)
+    cq = m.func("_quoting_c._Quoter._do_quote")
+    pre_c = any(e.func[-1] in ("PyUnicode_AsEncodedString", "encode") for e in analyze(m, cq).by_kind("call"))
+    py_stage = "before scanning" if pre else "while scanning"
+    cy_stage = "before scanning" if pre_c else ("while writing" if in_scan else "never")
+    ctx.instance(rule)
+    ctx.ob(rule, "_quoting_c._write_utf8", f"lone surrogates dropped {cy_stage} (pure-Python: {py_stage})", py_stage == cy_stage,
+           f"the compiled quoter drops unencodable units {cy_stage}, the pure-Python quoter {py_stage}: for '%' followed by a "
+           "lone surrogate and two hex digits the escape look-ahead of the compiled scanner sees the surrogate, the byte state "
+           "machine does not", where(cy, cy.node), sample=f"both {py_stage}")
